@@ -394,6 +394,23 @@ func (e *Engine) registerStubs() {
 		r.clockLog = append(r.clockLog, ns)
 		return TupleV{}
 	})
+	// time.Sleep(d): the clock moves on by at least d.  Inside a background goroutine run by zzverif.Background
+	// it is also the point at which the goroutine is parked again once its wake-ups are used up.
+	lt("time.Sleep", func(r *Run, fr *Frame, cc *ssa.CallCommon, a []Value) Value {
+		if r.bgActive {
+			if r.bgBudget == 0 {
+				panic(bgParked{})
+			}
+			r.bgBudget--
+		}
+		old := nsOf(now(r, fr, cc, nil))
+		ns := r.hvar(TW)
+		r.addPC(And(SLe(Add(old, SExt(a[0].(*Term), TW)), ns), SLe(ns, BV(nsY2262, TW))))
+		r.ghost["now"] = timeV(ns)
+		r.clockLog = append(r.clockLog, ns)
+		return nil
+	})
+	lt(rtPkg+".Sleep", e.intrinsics["lineartime:time.Sleep"])
 	lt(rtPkg+".AnyTime", func(r *Run, fr *Frame, cc *ssa.CallCommon, a []Value) Value { return r.anyTime(true) })
 	lt("(time.Duration).Seconds", func(r *Run, fr *Frame, cc *ssa.CallCommon, a []Value) Value { return UF("seconds", 64, a[0].(*Term)) })
 	lt("(time.Duration).String", func(r *Run, fr *Frame, cc *ssa.CallCommon, a []Value) Value {
